@@ -215,6 +215,11 @@ CORPUS_MODULES = {
     "lastins": ([CF("unreachable_in_else", ["i32"], "i32"), CF("unreachable_in_else1", ["i32"], "i32")],
                 {"unreachable_in_else": [(1,), (2,), (0,)], "unreachable_in_else1": [(1,), (0,)]}),
     "ret_extra": ([CF("ret_extra", ["i32"], "i32")], {"ret_extra": [(0,), (1,)]}),
+    "brif_parked": ([CF("brif_parked", ["i32"], "i32")], {"brif_parked": [(0,), (1,)]}),
+    "if_mixed": ([CF("if_mixed", ["i32"], "i64")], {"if_mixed": [(0,), (1,)]}),
+    "br_results": ([CF("pick", ["i32"], "i32"), CF("find", ["i32"], "i32"), CF("bt1", ["i32"], "i32"), CF("bt2", ["i32"], "i32"),
+                    CF("overlap", ["i32"], "i32")],
+                   {"pick": [(0,), (1,)], "find": [(0,), (5,), (1000,)], "bt1": [(0,), (1,), (5,)], "bt2": [(0,), (1,), (2,)], "overlap": [(0,), (1,)]}),
 }
 
 
@@ -227,6 +232,8 @@ def ctl_class(tag, f, args, ref):
         return "data-segment:backslash-byte"
     if tag == "lastins":
         return "function-end:nested-unreachable-last"
+    if tag == "br_results":
+        return {"bt1": "br_table:result-copy", "bt2": "br_table:result-copy", "overlap": "br:multi-result-overlap"}.get(f.name, "br:result-across-parked")
     return "ctl:%s" % f.name
 
 
@@ -245,7 +252,8 @@ def corpus_module(ctx, h, tag, flavours, dist, nontrivial):
     ref = run_ref(ctx, h, m, calls, "n")
     if rc != 0:
         key = {"multi_mixed": "multi-value:fallthrough-return", "brif_result": "br_if:target-with-result",
-               "ret_extra": "return:extra-stack-values"}.get(tag, "ctl:%s:translation-fails" % tag)
+               "ret_extra": "return:extra-stack-values", "brif_parked": "br_if:operands-below-condition",
+               "if_mixed": "if-else:mixed-result-types"}.get(tag, "ctl:%s:translation-fails" % tag)
         ctx.violation(key, "wat2c fails on corpus module %s.wat (%s) although the embedded runtime runs it: f_%s%s -> %s" % (
             tag, out.strip()[:200], calls[0][0].name, calls[0][1], ref[0]), {"wat": wat, "wat2c": out.strip(), "wasm": ref[:4]})
         return
@@ -266,6 +274,69 @@ def corpus_module(ctx, h, tag, flavours, dist, nontrivial):
                 ctx.violation(ctl_class(tag, f, args, a), "corpus module %s.wat, f_%s(%s): WebAssembly (wazero) gives `%s`, compiled C (%s) gives `%s`" % (
                     tag, f.name, ", ".join("0x%x" % x for x in args), a, fl, b),
                     {"wat": wat, "export": "f_" + f.name, "args_hex": [hx(x) for x in args], "wasm": a, "c": {fl: b}})
+
+
+# ------------------------------------------------------------------ generated control-flow modules (gen/c03_ctl.py)
+def generated_ctl(ctx, h, flavours, dist, nontrivial):
+    """random structured functions (nested block/loop/if with 0..2 results, parked operands, br/br_if/br_table/return at every depth,
+    calls) translated by the real wat2c, compiled and run on an argument grid against wazero"""
+    from gen import c03_ctl as GC
+    n = 210 if ctx.tier == "quick" else 1400
+    fns = [GC.gen_function(ctx.rng, "g%d" % i, "B" if i % 7 == 5 else ("C" if i % 7 == 6 else "A")) for i in range(n)]
+    # translate every function alone first: a panic of wat2c on one function must not hide the others
+    probe_in = "\n".join("%s %s" % (f.name, GC.module_text([f]).replace("\n", " ")) for f in fns) + "\n"
+    _, out, _ = ctx.run_bin(h, args=["probe"], input_text=probe_in, timeout=1800)
+    res = out.splitlines()
+    if len(res) != len(fns):
+        raise vlib.InfraError("c03 probe returned %d lines for %d generated functions" % (len(res), len(fns)))
+    keep = []
+    for f, st in zip(fns, res):
+        if st.startswith("ok"):
+            keep.append(f)
+        else:
+            ctx.violation("gen-ctl:translation-fails:%s" % GC.risk_key(f), "wat2c fails on a generated control-flow function (%s; features %s) that wazero accepts" % (
+                st[:160], sorted(f.tags)), {"wat": GC.module_text([f]), "wat2c": st, "features": sorted(f.tags)})
+    d = os.path.join(ctx.tmp, "gen_ctl")
+    os.makedirs(d, exist_ok=True)
+    chunks = [keep[i::4] for i in range(4)] if ctx.tier == "thorough" else [keep]
+    feat, ncalls = {}, 0
+    for ci, ch in enumerate(chunks):
+        m = Mod()
+        m.tag, m.dir = "gen_ctl%d" % ci, os.path.join(d, str(ci))
+        os.makedirs(m.dir, exist_ok=True)
+        m.rows, m.index = ch, dict((f.name, i) for i, f in enumerate(ch))
+        with open(os.path.join(m.dir, "mod.wat"), "w") as f:
+            f.write(GC.module_text(ch))
+        rc, out, _ = _run_in(h, ["wat2c", "mod.wat", PREFIX, "mod.c", "mod.h"], m.dir)
+        if rc != 0:
+            raise vlib.InfraError("wat2c fails on the module of generated functions although each translated alone: %s" % out[-300:])
+        errs = D.compile_errors(m.dir)
+        if errs:
+            ctx.violation("gen-ctl:c-does-not-compile", "the C generated for a control-flow module is rejected by gcc: line %d: %s" % errs[0],
+                          {"wat": GC.module_text(ch), "errors": errs[:5]})
+            continue
+        with open(os.path.join(m.dir, "driver.c"), "w") as f:
+            f.write(D.driver_source(ch, PREFIX, 1, 1, has_memory=False))
+        calls = [(f, a) for f in ch for a in GC.arg_tuples(f, ctx.rng, 6)]
+        ncalls += len(calls)
+        ref = run_ref(ctx, h, m, calls, "n")
+        for fl in flavours:
+            exe = build_flavour(m, fl)
+            got = run_c(m, exe, calls, "n")
+            for (f, args), a, b in zip(calls, ref, got):
+                if a != b and not (a.startswith("trap") and b == "sig ABRT"):
+                    dist["disagreements"] = dist.get("disagreements", 0) + 1
+                    ctx.violation("gen-ctl:%s" % GC.risk_key(f),
+                                  "generated control-flow function f_%s(%s) [features %s]: WebAssembly (wazero) gives `%s`, compiled C (%s) gives `%s`" % (
+                                      f.name, ", ".join("0x%x" % x for x in args), ",".join(sorted(f.tags)), a, fl, b),
+                                  {"wat": GC.module_text([f]), "export": "f_" + f.name, "args_hex": [hx(x) for x in args], "wasm": a, "c": {fl: b},
+                                   "features": sorted(f.tags)})
+        for f in ch:
+            for t in f.tags:
+                feat[t] = feat.get(t, 0) + 1
+            nontrivial.add(("gen-ctl", GC.risk_key(f), f.result, len(f.params)))
+    dist["calls_gen_ctl"] = ncalls
+    dist["gen_ctl"] = {"functions": len(fns), "translated": len(keep), "feature_counts": feat}
 
 
 # ------------------------------------------------------------------ whole modules produced by the real Wa compiler
@@ -562,7 +633,8 @@ def run(ctx):
     # ---- control flow / calls / tables / globals / data segments: hand-written modules, executed only
     for tag in sorted(CORPUS_MODULES):
         corpus_module(ctx, h, tag, fl_other, dist, nontrivial)
-    lap("corpus_modules")
+    generated_ctl(ctx, h, fl_other, dist, nontrivial)
+    lap("corpus_and_generated_control_flow")
     # ---- whole modules produced by the real compiler
     cdir = os.path.join(vlib.VERIF, "corpus", "C03")
     progs = [(f[:-3], os.path.join(cdir, f)) for f in sorted(os.listdir(cdir)) if f.endswith(".wa")]
